@@ -859,12 +859,29 @@ fn macro_workload() {
     }
 }
 
+/// "prehit": true in a macro case — a callsite (target "cs4", ERROR) is hit for the FIRST time after `Dispatch::new(stack)` but
+/// OUTSIDE any default (start-up logging before the collector is installed): the stack is a registered dispatcher, so
+/// every layer must be asked `register_callsite` exactly once then (and sees no event); hit again inside `with_default`,
+/// the event reaches every layer exactly once with no second registration.
+static PREHIT: std::sync::atomic::AtomicBool = std::sync::atomic::AtomicBool::new(false);
+fn prehit_site() {
+    tracing::event!(target: "cs4", Level::ERROR, "prehit");
+}
+
 fn run_macro<C: Collect + Send + Sync + 'static>(env: &Env, stack: C) -> Value {
     let build = env.take();
     let hint = stack.max_level_hint().map(rank_of_filter);
     let _ = env.take();
     let d = Dispatch::new(stack);
     let reg = env.take();
+    let mut pre = json!(null);
+    if PREHIT.load(SeqCst) {
+        prehit_site();
+        let outside = env.take();
+        tracing_core::dispatch::with_default(&d, prehit_site);
+        let inside = env.take();
+        pre = json!({"outside": ent(&outside), "inside": ent(&inside)});
+    }
     tracing_core::dispatch::with_default(&d, macro_workload);
     let log = env.take();
     // real Registry ids -> creation order.  A run of consecutive on_new_span entries with one raw id is one creation
@@ -881,7 +898,7 @@ fn run_macro<C: Collect + Send + Sync + 'static>(env: &Env, stack: C) -> Value {
         canon_entries(&ids, &mut one);
         *e = one[0].clone();
     }
-    json!({"build": ent(&build), "reg": ent(&reg), "ops": [{"log": ent(&log), "res": ["hint", hint]}]})
+    json!({"build": ent(&build), "reg": ent(&reg), "ops": [{"log": ent(&log), "res": ["hint", hint]}], "prehit": pre})
 }
 
 macro_rules! mshapes {
@@ -961,7 +978,10 @@ fn run_line(line: &str) -> Value {
                     static_any(name, &env, &ops, move || e2.root(&b0), &behs)
                 }
             }
-            "macro" => macro_case(case["shape"].as_str().unwrap_or(""), &env, &behs),
+            "macro" => {
+                PREHIT.store(case["prehit"].as_bool().unwrap_or(false), SeqCst);
+                macro_case(case["shape"].as_str().unwrap_or(""), &env, &behs)
+            }
             "conc" => {
                 let name = case["shape"].as_str().unwrap_or("");
                 let bound = case["bound_ms"].as_u64().unwrap_or(300);
